@@ -1,3 +1,4 @@
+import ZvbiModel.Mux.PesShape
 import ZvbiModel.Mux.AcceptLemmas
 /-!
 # Lemmas: the repaired `generate_pes_packet` never aborts - also for frames it goes on to reject
@@ -503,7 +504,8 @@ theorem generatePesR_noabort (cfg : Cfg) (hc : CfgOK cfg) (st : RawSt) (hst : st
     (hsp : ∀ sp', sp = some sp' → validSp sp' = true) (hraw : RawHolds raw sp) (pts : Nat)
     (hwf : ∀ s ∈ lines, Sliced.WF s) (e : RErr) (off : List Sliced)
     (hg : generatePesR true cfg st lines mask raw sp pts = .error (e, off)) : e.isAbort = false := by
-  unfold generatePesR at hg
+  rw [generatePesR_both] at hg
+  unfold generatePesRBoth at hg
   have hnl : ¬ st.left > 0 := by omega
   simp only [hnl, if_false] at hg
   have hany := genLoopR_any mask (fixedLengthFormat cfg.dataId) raw sp hsp hraw (lines.length + 1) (cfg.maxSize - 46) 0 0 st
